@@ -714,8 +714,9 @@ def observe(W, x, st, devs, pools, new):
             e['shut'] = bool(d._is_shut_down)
             e['reserved'] = None if d._reserved_resources is None else req_list(d._reserved_resources._reserved_resources)
             e['req'] = None if d._resources_for_processing is None else req_list(d._resources_for_processing)
-            e['uptime'] = to_ticks(d.uptime)
-            e['utilization'] = to_ticks(d.utilization_time)
+            # (before the simulation is initialised a device has no environment and the getters cannot be called)
+            e['uptime'] = to_ticks(d.uptime) if d.env is not None else 0
+            e['utilization'] = to_ticks(d.utilization_time) if d.env is not None else 0
         if k == 4:
             e['buf'] = [[to_ticks(t), item_info(W, it)] for t, it in d._buffer]
             e['level'] = d._level
